@@ -21,8 +21,16 @@ def descendants(facts, body):
     st = [body]
     while st:
         x = st.pop()
-        for ch in facts.children.get(x.def_, []):
-            if ch.crate is x.crate and ch not in out:
+        kids = list(facts.children.get(x.def_, []))
+        # closures / coroutines *constructed* in the body (in an inlined view they may belong to an inlined helper)
+        for blk in x.blocks:
+            for s_ in blk["stmts"]:
+                if s_["k"] == "assign" and s_["rv"]["k"] == "agg" and s_["rv"].get("ak") in ("closure", "coroutine", "coroutine_closure"):
+                    ch = facts.bodies.get(s_["rv"]["def"])
+                    if ch is not None and not any(ch.def_ == k.def_ for k in kids):
+                        kids.append(ch)
+        for ch in kids:
+            if ch.crate is x.crate and not any(ch.def_ == o.def_ for o in out):
                 out.append(ch)
                 st.append(ch)
     return out
@@ -177,6 +185,11 @@ def derives(tr, node, V, depth=0, variants=("Ready", "Ok", "Continue", "Some")):
         c = tr.call_of(node)
         if c.def_ == TRY_BRANCH or c.def_ in PASS_CALLS:
             return derives(tr, tr.expand(tr.operand(c.g.b, c.args[0], c.loc)), V, depth + 1, variants)
+    if k == "agg":
+        # re-wrapped payload (a helper returning Ok(x) / Ready(x) built from the derived value)
+        b2, rv = tr.agg_of(node)
+        if (variants is None or rv.get("variant") in variants) and rv.get("variant") is not None and len(rv["ops"]) == 1:
+            return derives(tr, tr.expand(tr.operand(b2, rv["ops"][0], (node[3], node[4]))), V, depth + 1, variants)
     return False
 
 
